@@ -96,6 +96,20 @@ def impl_write(mods, lay, recs):
     return f'ok {hx(out)} {",".join(map(str, tells))}', (out, tells)
 
 
+def impl_write_open(mods, lay, recs):
+    """FileWrite + write() for every record, the stream content BEFORE close() (how TestPhysRec builds files)."""
+    File, PhysRec = mods[0], mods[1]
+    tif, prmax, rec, fnum, chk = lay
+    try:
+        b = io.BytesIO()
+        fw = File.FileWrite(b, 'c05', False, bool(tif), prmax, PhysRec.PhysRecTail(bool(rec), fnum, bool(chk)))
+        tells = [fw.write(r) for r in recs]
+        out = b.getvalue()
+    except Exception as e:
+        return 'err ' + type(e).__name__, None
+    return f'ok {hx(out)} {",".join(map(str, tells))}', (out, tells)
+
+
 def impl_history(mods, data, ops, reader=None):
     """ops: list of ('r', n) ('s', n) ('n',) ('k', offset) ('t',). Returns list of canonical replies.
     reader: a FileRead obtained some other way (pad-settings entry point) instead of FileRead(BytesIO(data))."""
@@ -302,6 +316,38 @@ def check_case(ctx, mods, lay, recs, ops, want_nontriv=True):
         if stripped != want:
             ctx.fail(dict(case, ops=[]), 'strip_tif(TIF file) != file written without TIF markers'
                      + ('' if stripped is None else f' (lengths {len(stripped)} vs {len(want)})'))
+    # --- files that are not (completely) closed: no / one TIF EOF marker
+    res['open'] = None
+    if tif != 2:
+        trl = (bool(rec), fnum, bool(chk))
+        open_ref = lis.write_lis(recs, prmax, trl, tif, None, 0)
+        ctx.count('oracle_cases')
+        oout, ow = impl_write_open(mods, lay, recs)
+        res['open'] = {'write': oout, 'strips': [], 'hist': None, 'file': open_ref}
+        if ow is None or ow[0] != open_ref or ow[1] != ref_tells:
+            ctx.fail(dict(case, ops=[]), 'bytes/positions before close() differ from the LIS-79 layout without EOF markers')
+        if tif == 1 and recs:
+            want = lis.write_lis(recs, prmax, trl, 0)
+            for k in (0, 1):
+                ctx.count('oracle_cases')
+                data_k = lis.write_lis(recs, prmax, trl, 1, None, k)
+                sout, stripped = impl_strip(mods, data_k)
+                res['open']['strips'].append((data_k, sout))
+                if stripped != want:
+                    ctx.fail(dict(case, ops=[]), f'strip_tif(TIF file with {k} EOF marker(s), i.e. not closed) != file written '
+                             'without TIF markers' + ('' if stripped is None else f' (lengths {len(stripped)} vs {len(want)})'))
+        if tif == 1 and ops:
+            # the reader on the unclosed TIF file (what the project's tests do)
+            ctx.count('oracle_cases')
+            oops = ops[:80]
+            conc = [('k', ref_tells[o[1]]) if o[0] == 'k' else o for o in oops]
+            got = impl_history(mods, open_ref, conc)
+            res['open']['hist'] = (got, conc)
+            want = reference_history(recs, ref_tells, oops)
+            if got != want:
+                i = next(i for i, (x, y) in enumerate(zip(got, want)) if x != y)
+                ctx.fail(dict(case, ops=[list(o) for o in oops[:i + 1]]),
+                         f'unclosed TIF file: operation #{i} {oops[i]}: got {got[i][:60]} expected {want[i][:60]}')
     # --- history
     if ops:
         ctx.count('oracle_cases')
@@ -521,6 +567,7 @@ def run(ctx):
     check_case(ctx, mods, wrap_lay, wrap_recs, [('k', 1), ('r', -1), ('r', 4), ('t',), ('k', 0), ('s', 70000), ('r', 1), ('r', 2)],
                want_nontriv=False)
     lines_w, lines_e, lines_h, lines_a, lines_s = [], [], [], [], []
+    lines_o = []
     results = []
     for lay, recs, ops in cases:
         res = check_case(ctx, mods, lay, recs, ops)
@@ -534,8 +581,18 @@ def run(ctx):
             lines_a.append(f'a {ls} {rs_} {show_ops(ops)}')
         if lay[0] == 1:
             lines_s.append(f'strip {hx(res["file"])}')
+        if res.get('open'):
+            lines_o.append((f'wo {ls} {rs_}', res['open']['write'], 'write_open_model'))
+            lines_o.append((f'eo 0 {ls} {rs_}', 'ok ' + hx(res['open']['file']), 'write_open_spec'))
+            for data_k, sout in res['open']['strips']:
+                lines_o.append((f'strip {hx(data_k)}', sout, 'strip_open_model'))
+            if res['open']['hist']:
+                got, conc = res['open']['hist']
+                lines_o.append((f'h {hx(res["open"]["file"])} {show_ops(conc)}', ','.join(got), 'history_open_model'))
     rep_w = iter(ctx.lean(lines_w)); rep_e = iter(ctx.lean(lines_e)); rep_h = iter(ctx.lean(lines_h))
     rep_a = iter(ctx.lean(lines_a)); rep_s = iter(ctx.lean(lines_s))
+    for (line, impl, stream), m in zip(lines_o, ctx.lean([l for l, _, _ in lines_o])):
+        ctx.corr(stream, {'request': line[:200]}, impl, m)
     from core import InfraError
     for (lay, recs, ops), res in zip(cases, results):
         small = {'layout': list(lay), 'records': [r.hex() for r in recs] if sum(map(len, recs)) < 400 else
